@@ -259,6 +259,8 @@ func genC04(rng *Rng, thorough bool, emit func(*Scenario)) {
 	}
 	genStale("c04-stale", rng, false, emit)
 	genSlowSilence(rng, thorough, emit)
+	genTrailing("c04", rng, emit)
+	genSteadyTraffic(rng, emit)
 }
 
 // ---------- C05 ----------
@@ -316,6 +318,8 @@ func genC05(rng *Rng, thorough bool, emit func(*Scenario)) {
 		}
 	}
 	genStale("c05-stale", rng, true, emit)
+	genTrailing("c05", rng, emit)
+	genAppears(rng, emit)
 }
 
 // ---------- C06 ----------
